@@ -11,3 +11,16 @@ claim("C14", "proof",
       "outside the claim); math.sqrt and x**(1/2) modelled as y>=0 and y*y==x; unit sizes for +/- "
       "from the independent declaration oracle; proxy semantics self-tested against CPython on every run.",
       "shadow-symbolic execution of real code + z3 NRA per path", "DESIGN.md 4/C14", "symnum")
+
+claim("C12", "other",
+      "The real comparison operators (Quantity.__eq__/__lt__ + total_ordering, Measurement.__eq__, "
+      "approximately, Level.__eq__) run on solver-backed magnitudes/uncertainties; per path z3 proves "
+      "for ALL reals that, away from a 1e-9 relative tie zone, exactly one of <,==,> holds in agreement "
+      "with physical values from the independent declaration oracle, <=/>= mirror, == is reflexive and "
+      "symmetric (Measurement/approximately/Level for all measurands and uncertainties), and searches "
+      "for equal quantities whose hashed (magnitude, unit) tuples differ, replayed with the real hash(). "
+      "Unit pairs and operand/numeric kinds are a finite enumerated family.",
+      "Exact real arithmetic over the code's binary constants; tie zone excluded for different units; "
+      "unit pairs limited to the family listed in props/c12.py; int magnitudes only on exact pairs; "
+      "ln/exp uninterpreted with instance axioms.",
+      "shadow-symbolic execution of real code + z3 (LRA/NRA) per path", "DESIGN.md 4/C12", "symnum")
